@@ -372,9 +372,68 @@ def r01_5(ctx, p):
         need = set(params) - {"value", "values"}
         ctx.check(need <= kws and ("value" in kws or "values" in kws) and not ctors[0].args, "R01.5", f.short, "reconstructs-all-fields",
                   message=f"{f.name} builds FrozenTrial with {sorted(kws)}; missing {sorted(need - kws)}", how="keyword set = constructor parameter set")
+    from rules._template import template_copies_are_deep
+    template_copies_are_deep(ctx, "R01.5", "The cached-RDB wrapper serves this object for a finished template trial, so a later in-place edit of the object the "
+                             "caller added (t.params['x'] = ...; study.add_trial(t)) changes what get_trial returns while every other backend - and the "
+                             "database itself - keeps the values that were stored")
     # in-memory sets number and id after the copy
     asg = {norm(t) for n in own_nodes(im.node) if isinstance(n, ast.Assign) for t in n.targets}
     ctx.check({"trial.number", "trial._trial_id"} <= asg, "R01.5", im.short, "assigns-number-and-id", message="in-memory create does not assign number/_trial_id", how="assignments present")
+
+
+def r01_16(ctx, p):
+    """The in-memory backend answers get_all_trials(states=(WAITING,)) by scanning from a per-study cursor. The other backends
+    filter every trial, so the answers agree only while no WAITING trial stands below the cursor: every storage call that can
+    make an existing trial WAITING has to pull the cursor back to it."""
+    ctx.rule("R01.16", "in-memory WAITING listing = the other backends' filter: a trial that set_trial_state_values turns (back) to WAITING is never left "
+             "below the scan cursor of get_all_trials(states=(WAITING,))")
+    im = p.cls(INMEM)
+    ga = im.methods["get_all_trials"]
+    cursors = set()
+    for x in own_nodes(ga.node):
+        if isinstance(x, ast.Subscript) and isinstance(x.slice, ast.Slice) and x.slice.lower is not None and x.slice.upper is None:
+            lo = resolve(x.slice.lower, single_defs(ga.node))
+            for y in ast.walk(lo):
+                if isinstance(y, ast.Attribute) and isinstance(y.value, ast.Name) and y.value.id == "self":
+                    cursors.add(y.attr)
+    if not cursors:
+        ctx.ok("R01.16", ga.short, "no-scan-cursor", how="get_all_trials filters every trial (no cursor to keep consistent)", nontrivial=False)
+        return
+    f = im.methods["set_trial_state_values"]
+    g = CFG(f.node, name=f.qualname)
+    defs = single_defs(f.node)
+
+    def touches_cursor(e):
+        return any(isinstance(y, ast.Attribute) and y.attr in cursors and isinstance(y.value, ast.Name) and y.value.id == "self" for y in ast.walk(e))
+    lowering = []
+    for n in g.stmt_nodes():
+        if n.kind == "stmt" and isinstance(n.ast, ast.Assign) and any(isinstance(t, ast.Subscript) and touches_cursor(t.value) for t in n.ast.targets):
+            v = resolve(n.ast.value, defs)
+            if isinstance(v, ast.Call) and dotted(v.func) == "min" and any(touches_cursor(a) for a in v.args):
+                lowering.append(n)
+        if n.kind == "test" and isinstance(n.expr, ast.Compare) and touches_cursor(n.expr) and any(isinstance(o, (ast.Lt, ast.LtE, ast.Gt, ast.GtE)) for o in n.expr.ops):
+            lowering.append(n)
+    pub = [n for n in g.stmt_nodes() for c in n.calls() if self_attr(c.func) == "_set_trial"]
+    ctx.require(pub, "R01.16: in-memory set_trial_state_values no longer publishes through _set_trial")
+    cur = {norm(x) for x in own_nodes(f.node) if isinstance(x, ast.Attribute) and x.attr == "state" and norm(x.value) not in ("self",) and not norm(x.value).endswith("TrialState")}
+    bad = None
+    for curst in ("RUNNING", "WAITING"):
+        env = {"state": "WAITING"}
+        for c in cur:
+            env[c] = curst
+        nodes, edges = explore(g, env, [], return_edges=True)
+        ok_edge = lambda a, k, b, edges=edges: (a, k, b) in edges and k not in ("e", "reraise", "match", "nomatch")  # noqa: E731
+        for pn in pub:
+            if pn not in nodes:
+                continue
+            before = g.reachable([g.entry], avoid_nodes=lowering, edge_ok=ok_edge)
+            if pn in before and g.exit in g.reachable([pn], avoid_nodes=lowering, edge_ok=ok_edge):
+                bad = g.witness([g.exit], guards=lowering, edge_ok=ok_edge)
+    ctx.check(bad is None, "R01.16", f.short, "requeued-trial-not-below-cursor",
+              message=f"InMemoryStorage.set_trial_state_values(t, WAITING) publishes the trial without pulling self.{sorted(cursors)[0]} back to its number: after a WAITING "
+                      f"listing has moved the cursor past t, get_all_trials(states=(WAITING,)) never returns t again, while RDB, journal and the in-memory list form "
+                      f"(states=[WAITING]) do - Study.ask would never run the re-queued trial on this backend only",
+              how="explored with state=WAITING: every path that publishes passes `cursor = min(cursor, number)` (or a guarded lowering)", witness=bad)
 
 
 # ------------------------------------------------------------------------------------------------
@@ -968,3 +1027,4 @@ def run(ctx):
     r01_13(ctx, p)
     r01_14(ctx, p)
     r01_15(ctx, p)
+    r01_16(ctx, p)
